@@ -164,6 +164,33 @@ def r_point(ctx: Ctx, model, tr=None):
                    nontrivial_key=("point", "reads", k))
     ctx.floor("spreading_pressure_at returning paths", npaths["ok"], 10)
     ctx.floor("spreading_pressure_at refusing paths", npaths["raise"], 1)
+    # the edge of the data range, on concrete pressures: p == max(P) is inside the range (answered), p > max(P) is refused, p below the
+    # first point is the Henry integral
+    ctx.rule("S-point (edge): with data pressures 1, 2, 3, 4 a query at p = 4 is answered, p = 5 is refused (no fill value), p = 1/2 gives L0/P0*p")
+    Pc = [sp.Integer(i + 1) for i in range(NP)]
+    for qp, expect in ((sp.Integer(4), "answer"), (sp.Integer(5), "refuse"), (sp.Rational(1, 2), "henry"), (sp.Integer(1), "answer")):
+        I = make_interp(model)
+        install_vec(I)
+        I.sympy_mode = True
+        I.libmeth[("Vec", "max")] = lambda I, v, a, k, n: max(v.items)
+        I.libmeth[("Vec", "min")] = lambda I, v, a, k, n: min(v.items)
+        for nm_ in ("numpy.max", "numpy.amax"):
+            I.ext[nm_] = lambda I, a, k, n: max(a[0].items)
+        I.ext["numpy.log"] = lambda I, a, k, n: sp.log(a[0])
+        iso = lambda: Obj(cls=ci, label="iso", attrs={"pressure_unit": "bar", "pressure_mode": "absolute", "l_interpolator": None, "p_interpolator": None})
+        for acc, val in (("pressure", lambda: Vec(list(Pc))), ("loading", lambda: Vec(list(L))), ("loading_at", lambda: nat)):
+            I.overrides[f"pygaps.core.pointisotherm.PointIsotherm.{acc}"] = (lambda val: lambda I, fi_, env, n: val())(val)
+        outs = I.explore(lambda I: I.call_func(fi, [qp], {"branch": "ads"}, None, self_obj=iso()), max_paths=400)
+        if expect == "refuse":
+            ok = bool(outs) and all(o.kind == "raise" and o.exc.is_a("CalculationError") and not o.exc.fault for o in outs)
+        elif expect == "henry":
+            ok = bool(outs) and all(o.kind == "ok" and isinstance(o.value, sp.Basic) and sp.simplify(o.value - L[0] / Pc[0] * qp) == 0 for o in outs)
+        else:
+            ok = bool(outs) and all(o.kind == "ok" for o in outs)
+        ctx.ob(ok, Finding("C11.S-point", fi.where, f"point|edge|p={qp}|{expect}",
+                           f"spreading_pressure_at({qp}) on data pressures {[str(x) for x in Pc]}: {[repr(o)[:80] for o in outs[:2]]}; required: "
+                           + {"answer": "a value (the edge of the data range belongs to it)", "refuse": "CalculationError (beyond the data, no fill value)",
+                              "henry": "L0/P0*p"}[expect]), nontrivial_key=("point", "edge", str(qp)))
 
 
 def run(ctx: Ctx):
